@@ -111,11 +111,17 @@ func RelayAddr(i int) string {
 	if i == UnusableRelay {
 		return "https://relay seven.example.com/" // url.Parse rejects the host: no client can be made, and no I/O is attempted
 	}
+	if i == RejectedRelay {
+		return "https://0xnot-a-public-key@relay8.example.com/" // parses as a URL; the builder client refuses it before any I/O
+	}
 	return fmt.Sprintf("https://relay%d.example.com/", i)
 }
 
 // UnusableRelay is the address number of a relay that cannot be contacted at all (see RelayAddr).
 const UnusableRelay = 7
+
+// RejectedRelay is the address number of a relay whose address parses but for which the builder client cannot be created.
+const RejectedRelay = 8
 
 // RelayPub is relay public key number i (content is irrelevant to the configuration).
 func RelayPub(i int) phase0.BLSPubKey {
